@@ -177,7 +177,7 @@ func (s *Sim) waitQuiescent() (Snapshot, bool) {
 			// nothing has parked or blocked for a long time: is a goroutine of
 			// the program under test spinning? (checked again every StallAfter)
 			nextStallCheck = time.Now().Add(s.StallAfter)
-			if snap, spinning := s.detectSpin(); spinning {
+			if snap, spinning := s.detectSpin(time.Since(t0)); spinning {
 				snap.Why = "livelock"
 				return snap, false
 			}
@@ -230,13 +230,19 @@ func creatorChain() []uint64 {
 // reports a livelock when the same goroutine is runnable/running in the same
 // function in every sample and the process burned CPU for most of the window:
 // a busy loop, as opposed to a process that is merely starved of CPU.
-func (s *Sim) detectSpin() (Snapshot, bool) {
+//
+// It also reports a livelock when a goroutine has been asleep (time.Sleep) in
+// the same function of the library under test in every sample and nothing
+// has quiesced for SleepBound: a retry loop that never gives up. Sleeps of
+// the harness itself (a deliberately slow scripted renderer) do not count.
+func (s *Sim) detectSpin(stalled time.Duration) (Snapshot, bool) {
 	const samples = 10
 	const gap = 500 * time.Millisecond
 	var ru0, ru1 syscall.Rusage
 	syscall.Getrusage(syscall.RUSAGE_SELF, &ru0)
 	w0 := time.Now()
 	count := map[string]int{}
+	sleepers := map[string]int{}
 	var last Snapshot
 	for i := 0; i < samples; i++ {
 		snap := s.takeSnapshot(true)
@@ -247,6 +253,23 @@ func (s *Sim) detectSpin() (Snapshot, bool) {
 		seen := map[string]bool{}
 		for _, g := range snap.Others {
 			if g.Stable {
+				continue
+			}
+			if g.State == "sleep" {
+				top := ""
+				for _, f := range g.Frames {
+					if !hasPrefix(f, "runtime.") && !hasPrefix(f, "time.") {
+						top = f
+						break
+					}
+				}
+				if hasPrefix(top, "github.com/deadsy/sdfx/") {
+					k := "sleep:" + strconv.FormatUint(g.ID, 10) + "@" + top
+					if !seen[k] {
+						seen[k] = true
+						sleepers[k]++
+					}
+				}
 				continue
 			}
 			top := ""
@@ -270,6 +293,13 @@ func (s *Sim) detectSpin() (Snapshot, bool) {
 	for _, c := range count {
 		if c == samples && cpu > wall/5 {
 			return last, true
+		}
+	}
+	if stalled >= s.SleepBound && s.SleepBound > 0 {
+		for _, c := range sleepers {
+			if c == samples {
+				return last, true
+			}
 		}
 	}
 	return last, false
